@@ -38,7 +38,8 @@ func C08_reply_exact() {
 	consumed := -1
 	switch vChoose("entry", 5) {
 	case 0: // ControlHandler with plain source
-		src := vNewSrc(append([]byte{}, payload...), []int{0, 1, 5}[vChoose("mode", 3)], "chunk")
+		// (mode 3: the last bytes of the payload arrive together with io.EOF)
+		src := vNewSrc(append([]byte{}, payload...), []int{0, 1, 5, 3}[vChoose("mode", 4)], "chunk")
 		err = ControlHandler{Src: &src, Dst: dst, State: st, DisableSrcCiphering: true}.Handle(h)
 		consumed = src.pos
 	case 1: // ControlHandler un-ciphering a masked source itself (server side only)
@@ -49,7 +50,7 @@ func C08_reply_exact() {
 		for i := range masked {
 			masked[i] = payload[i] ^ h.Mask[i%4]
 		}
-		src := vNewSrc(masked, []int{0, 1, 5}[vChoose("mode", 3)], "chunk")
+		src := vNewSrc(masked, []int{0, 1, 5, 3}[vChoose("mode", 4)], "chunk")
 		err = ControlHandler{Src: &src, Dst: dst, State: st}.Handle(h)
 	case 2:
 		src := vNewSrc(append([]byte{}, payload...), 0, "chunk")
